@@ -115,6 +115,15 @@ def F09():
     return wid == [0.375], f"width of leading dimension: {wid} (expected [0.375])"
 
 
+def F10():
+    m = ART1(0.5, 2.0)
+    m.dim_ = 5
+    x = np.array([1.0, 0.0, 0.0, 0.0, 0.0])
+    w = m.new_weight(x, m.params)
+    want = 2.0 / (2.0 - 1 + x.sum()) * x
+    return np.allclose(w[:5], want), f"new_weight bottom-up {w[:5].tolist()} expected {want.tolist()}"
+
+
 def F12():
     r = np.random.RandomState(3)
     Xs = [cc(r.randint(0, 5, size=(12, 2)) / 4.0) for _ in range(3)]
